@@ -388,8 +388,13 @@ class LoopSpec(object):
        types: {'name': 'int'|'bool'|'cell'|'seq'|'keep'} overrides for havocked variables
        decreases: for while loops"""
 
-    def __init__(self, invariant, types=None, label='', extra_havoc=(), unroll=None):
+    def __init__(self, invariant=None, types=None, label='', extra_havoc=(), unroll=None, delta=None):
+        """invariant(st): inductive invariant.  delta(st, x, dout): *stateless-body rule* -- the body is run once for an
+        arbitrary element x with every carried variable havocked and an empty output trace dout; delta states the
+        obligations on what this one iteration emitted (the composition over all iterations is the engine's
+        meta-theorem, DESIGN 2.4)."""
         self.invariant, self.types, self.label, self.extra_havoc, self.unroll = invariant, types or {}, label, extra_havoc, unroll
+        self.delta = delta
 
 
 class LoopState(object):
@@ -397,7 +402,13 @@ class LoopState(object):
         self.interp, self.env, self.k = interp, env, k
 
     def __getitem__(self, name):
-        return self.env.lookup(name)
+        v = self.env.lookup(name)
+        if isinstance(v, PyList):
+            try:
+                return seq_of_items(v.items, v.kind, v.origin)      # read-only symbolic view of a concrete list
+            except Unsupported:
+                return v
+        return v
 
     @property
     def out(self):
